@@ -253,12 +253,12 @@ int main(int argc, char **argv)
         return wr_finish();
     }
     leg_arg_t a1 = { 0, -1 }, a2 = { 1, wr_thorough ? 2 : 1 };
-    /* deciding legs first (80% of the time budget), free-running configuration box last */
+    /* deciding legs first (70% of the time budget), free-running configuration box last */
     double full_deadline = wr_deadline;
-    if (full_deadline > 0 && !only) wr_deadline = full_deadline - 0.2 * (full_deadline - wr_now());
+    if (full_deadline > 0 && !only) wr_deadline = full_deadline - 0.3 * (full_deadline - wr_now());
     if (!only || !strcmp(only, "bounded")) wr_run_legs("bounded", jobs > 6 ? 6 : jobs, leg_orders, &a2, 600, aux);
     if (!only || !strcmp(only, "orders")) wr_run_legs("orders", jobs, leg_orders, &a1, 600, aux);
-    wr_deadline = full_deadline;
+    wr_deadline = full_deadline; if (full_deadline > 0 && full_deadline < wr_now() + 15) wr_deadline = wr_now() + 15;   /* the box always gets a minimum share */
     if (!only || !strcmp(only, "threads")) wr_run_legs("threads", 9, leg_threads, NULL, 240, aux);
     return wr_finish();
 }
